@@ -47,16 +47,19 @@ theorem recover_total (d : Disk) :
     simp [Disk.recover, this]
 
 /-- the byte level, under **TornRejected**: of all torn variants of an encoding `new` written over a previous file `old`
-(every prefix, zero-filled, prefix + stale tail, the previous file itself) only the encoding itself is a complete entry of
-the model's directory; every other one is `complete := false` — what `snapBegin` / `crash` put there -/
+(every prefix, zero-filled, prefix + stale tail, the previous file itself) only the encoding itself — or the previous file
+left untouched, the old state — is a complete entry of the model's directory; every other one is `complete := false`:
+what `snapBegin` / `crash` put there -/
 theorem torn_is_incomplete {α : Type} (accept : FileBytes → Option α) (new old : FileBytes) (h : TornRejected accept new old)
     (epoch k : Nat) (segs : List Nat) (v : FileBytes) (hv : v ∈ tornVariants new old) :
-    (entryOf accept epoch k segs v).complete = true → v = new := by
+    (entryOf accept epoch k segs v).complete = true → v = new ∨ v = old := by
   intro hc
   by_cases hn : v = new
-  · exact hn
-  · have := h v hv hn
-    simp [entryOf, this] at hc
+  · exact Or.inl hn
+  · by_cases ho : v = old
+    · exact Or.inr ho
+    · have := h v hv hn ho
+      simp [entryOf, this] at hc
 
 /-- the fully written file is among the variants (a crash after the last byte and before the return) -/
 theorem full_is_a_variant (new old : FileBytes) : new ∈ tornVariants new old := by
